@@ -294,6 +294,68 @@ def check_sametext(ctx, out, rule="C03.sametext"):
     out.inst(rule, n, 4, note="tree-sitter input = parameter text; parser input and file_content = text as read; reader = fs::read_to_string")
 
 
+def check_visitors(ctx, out, rule="C03.visitor"):
+    """A node visitor (`|node, source| -> Option<String>`) leaves a node out only because of its *kind*: on
+    every path that returns `None`, the conditions that led there consult the node through `Node::kind()` only (and its text, through its byte range).
+    A further test of the node (`is_extra`, `is_named`, `parent`, a position, a child count ...) drops comments
+    that the grammar happens to parse differently in some place - their tags would be invisible."""
+    n = 0
+    vis = []
+    for b in ctx.reachable_bodies():
+        if b.promoted is not None or b.kind != "Closure" or not b.id.startswith("blockwatch::language_parsers::"):
+            continue
+        if b.argc == 3 and "tree_sitter::Node<" in b.local_ty(2) and re.match(r"&('\w+ )?str$", b.local_ty(3)) and b.local_ty(0).startswith("std::option::Option<std::string::String>"):
+            vis.append(b)
+    for b0 in vis:
+        v = ctx.inl(b0, skip=lambda cb: False, tag="all-sugar", sugar=True)
+        cfg = cfg_of(v)
+        slots = util.return_slots(v)
+        bad = None
+        drops = 0
+        for bi, j, s in v.assigns():
+            rv = s["rv"]
+            if bi in cfg.reachable and s["lhs"]["l"] in slots and not s["lhs"]["p"] and rv["k"] == "agg" and rv.get("agg") == "adt" and rv.get("variant") in ("None", 0) and (rv.get("path") or "").endswith("option::Option"):
+                drops += 1
+                # every branch the drop is control dependent on, directly or through other branches (a drop that
+                # is reached on both arms of a test - `a && b` false because of a, or because of b - still
+                # depends on that test), and - for a tested flag computed on several paths - what each value is
+                from engine.cfg import dag_of
+                dag = dag_of(v)
+                exprs = []
+                todo = [bi]
+                seen_b = set()
+                while todo:
+                    x = todo.pop()
+                    if x in seen_b or len(seen_b) > 60:
+                        continue
+                    seen_b.add(x)
+                    for br, succ in dag.control_deps(x):
+                        tt = v.blocks[br]["term"]
+                        if not tt or tt["k"] != "switch":
+                            continue
+                        exprs.append(util.switch_operand_expr(ctx, v, br))
+                        if br != x:
+                            todo.append(br)
+                        pl = tt["op"].get("c") or tt["op"].get("m")
+                        if pl is not None and not pl["p"]:
+                            ds = [d for d in v.defs().get(pl["l"], []) if d[0] in ("stmt", "call")]
+                            if len(ds) > 1:
+                                todo.extend(d[1] for d in ds)
+                                for d in ds:
+                                    if d[0] == "stmt":
+                                        exprs.append(ctx.expr(v).rvalue(d[3]["rv"]))
+                for e in exprs:
+                    for c in walk(e):
+                        if c[0] == "call" and re.search(r"^tree_sitter::Node::<'tree>::|^tree_sitter::Node::", c[1]) and not re.search(r"::(kind|byte_range|start_byte|end_byte|utf8_text)$", c[1]):
+                            bad = (s, c[1].split("::")[-1])
+        if bad is not None:
+            out.viol(rule, "%s|%s|%s" % (rule, b0.id, bad[1]), ctx.where(v, bad[0]["span"]),
+                     "the node visitor leaves a node out depending on `Node::%s`: a comment is recognised by its node kind alone; with a further condition the comments for which it does not hold (the grammar parses comments differently in some positions) are never scanned for tags" % bad[1])
+        elif drops:
+            n += 1
+    out.inst(rule, n, 3, [b.id for b in vis][:4], note="node visitors: every `None` is reached through `Node::kind()` tests only")
+
+
 def check_content(ctx, out):
     n = 0
     cands = [b for b in ctx.reachable_bodies() if b.promoted is None and b.local_ty(0) == "blockwatch::blocks::Block" and any(callee_matches(t, r"blocks::Block::new$") for bi, t in b.calls())]
@@ -534,6 +596,7 @@ def check_order(ctx, out):
 
 
 def run(ctx, out, tier):
+    check_visitors(ctx, out)
     check_kinds(ctx, out)
     check_blank(ctx, out)
     check_content(ctx, out)
